@@ -4,7 +4,10 @@ The AST of a generator (and of the package helpers it calls) is evaluated by the
 imported or run.  The evaluator is exact on the values that decide the connectivity of the generated mesh
 
     integers, booleans, None, strings, exact rationals (int / int, float literals), tuples / lists / ranges of those,
-    arrays of known length (np.linspace(a, b, n), np.array(list), element-wise functions of such arrays),
+    N-d arrays of known shape (rules/hi_nd.py: np.linspace(a, b, n), np.array(nested lists), arange, zeros / full(_like), element-wise
+    arithmetic with broadcasting, reshape / transpose / stack / concatenate / roll / meshgrid / indices, integer and slice indexing),
+    dictionaries with hashable keys, NamedTuple / dataclass records (fields, methods, properties), Enum members, the instance a
+    method belongs to (its plain methods are evaluated, its data is opaque),
     the containers of the mesh under construction (vertices / edges / faces / cells and their attributes)
 
 and treats everything else (coordinates, angles, trigonometry, library geometry) as an opaque value.  A test on an opaque value
@@ -21,6 +24,18 @@ from fractions import Fraction
 from .. import au
 from . import hi_nd as ND
 from .hi_nd import NArr
+
+# keyword arguments understood by the models of the numpy functions (anything else makes the result opaque)
+NUMPY_KW = {
+    "linspace": {"num", "endpoint", "dtype", "retstep"}, "arange": {"dtype"}, "zeros": {"dtype", "shape", "order"}, "ones": {"dtype", "shape", "order"},
+    "empty": {"dtype", "shape", "order"}, "full": {"dtype", "shape", "fill_value", "order"}, "zeros_like": {"dtype"}, "ones_like": {"dtype"},
+    "empty_like": {"dtype"}, "full_like": {"dtype", "fill_value"}, "array": {"dtype", "copy"}, "asarray": {"dtype"}, "asanyarray": {"dtype"},
+    "ascontiguousarray": {"dtype"}, "stack": {"axis"}, "column_stack": set(), "vstack": set(), "hstack": set(), "row_stack": set(),
+    "concatenate": {"axis"}, "transpose": {"axes"}, "reshape": {"order", "newshape", "shape"}, "ravel": {"order"}, "repeat": {"axis"}, "tile": set(),
+    "outer": set(), "meshgrid": {"indexing", "sparse"}, "roll": {"axis"}, "flip": {"axis"}, "cumsum": {"axis"}, "append": {"axis"},
+    "indices": {"dtype", "sparse"}, "take": {"axis", "mode"}, "mod": set(), "remainder": set(), "add": set(), "subtract": set(), "multiply": set(),
+    "floor_divide": set(), "divmod": set(),
+}
 
 MAX_STEPS = 400000
 MAX_DEPTH = 8
@@ -160,6 +175,7 @@ class Mesh:
 class Func:
     def __init__(self, node, modname, closure=None):
         self.node, self.modname, self.closure = node, modname, closure
+        self.defaults = None       # parameter -> value, evaluated once when a nested function / lambda is defined
 
 
 class Mod:
@@ -184,6 +200,22 @@ class RecordClass:
 class Record:
     def __init__(self, cls, values):
         self.cls, self.values = cls, values
+
+
+class EnumClass:
+    """an Enum declared in the package: its members are distinct constants"""
+    def __init__(self, name, modname, members, values=None):
+        self.name, self.modname = name, modname
+        self.members = {m: EnumMember(self, m) for m in members}
+        self.values = dict(values or {})     # member name -> expression of its value
+
+
+class EnumMember:
+    def __init__(self, cls, name):
+        self.cls, self.name = cls, name
+
+    def __repr__(self):
+        return f"{self.cls.name}.{self.name}"
 
 
 class Bound:
@@ -264,6 +296,29 @@ class Interp:
         if self.steps > MAX_STEPS:
             raise Undecidable("evaluation budget exhausted", node)
 
+    def _define(self, node, env):
+        """a nested function / lambda: its default values are computed now"""
+        f = Func(node, env.modname, env)
+        a = node.args
+        full = [p.arg for p in a.posonlyargs + a.args]
+        pairs = list(zip(full[len(full) - len(a.defaults):], a.defaults)) if a.defaults else []
+        pairs += [(p.arg, d) for p, d in zip(a.kwonlyargs, a.kw_defaults) if d is not None]
+        f.defaults = {}
+        for name, d in pairs:
+            try:
+                f.defaults[name] = self.ev(d, env)
+            except (Undecidable, Crash):
+                f.defaults[name] = Opaque(name)
+        return f
+
+    def _mesh_state(self):
+        """a fingerprint of the tracked meshes (sizes of their containers and attribute writes)"""
+        out = []
+        for m in self.meshes:
+            for k, c in m.c.items():
+                out.append((id(c), len(c.data), sum(len(a.writes) for a in c.attrs.values()), len(c.attrs)))
+        return out
+
     def mutate(self, node=None):
         if self.forbid:
             raise Undecidable("a mesh / list update depends on a test the analysis cannot evaluate", node)
@@ -289,6 +344,10 @@ class Interp:
         return v
 
     def _resolve_global(self, name, modname):
+        stubs = self.__dict__.get("stubs") or {}
+        if name in stubs:
+            # an abstraction supplied by the rule: a package function replaced by a model of its result (e.g. "a 3D point depending on t")
+            return Func(stubs[name], modname)
         r = self.repo.resolve(modname, name) if modname in self.repo.modules else None
         if r is not None:
             kind, src, oname = r
@@ -300,7 +359,7 @@ class Interp:
                 if fn is not None:
                     return Func(fn, src)
             if kind == "class":
-                rc = self._record_class(src, oname)
+                rc = self._record_class(src, oname) or self._enum_class(src, oname)
                 return rc if rc is not None else Builtin(oname)
             if kind == "module":
                 return Mod(src, src in self.repo.modules)
@@ -353,6 +412,22 @@ class Interp:
         methods = {st.name: st for st in cls.body if isinstance(st, ast.FunctionDef)}
         return RecordClass(cname, modname, fields, defaults, is_nt, methods)
 
+    def _enum_class(self, modname, cname):
+        cache = self.__dict__.setdefault("_enums", {})
+        if (modname, cname) in cache:
+            return cache[(modname, cname)]
+        m = self.repo.modules.get(modname)
+        cls = m.classes.get(cname) if m is not None else None
+        out = None
+        if cls is not None and any(au.src(b).split(".")[-1] in ("Enum", "IntEnum", "StrEnum", "Flag", "IntFlag") for b in cls.bases):
+            members = [t.id for st in cls.body if isinstance(st, ast.Assign) for t in st.targets if isinstance(t, ast.Name) and not t.id.startswith("_")]
+            members += [st.target.id for st in cls.body if isinstance(st, ast.AnnAssign) and isinstance(st.target, ast.Name) and st.value is not None]
+            values = {t.id: st.value for st in cls.body if isinstance(st, ast.Assign) for t in st.targets if isinstance(t, ast.Name)}
+            if members and not any(isinstance(st, ast.FunctionDef) for st in cls.body):
+                out = EnumClass(cname, modname, members, values)
+        cache[(modname, cname)] = out
+        return out
+
     def _external(self, src, oname):
         if oname == "pi":
             return Opaque("pi")
@@ -399,7 +474,9 @@ class Interp:
                     defaults[p.arg] = d
             for n in names + kwonly:
                 if n not in local:
-                    if n in defaults:
+                    if f.defaults is not None and n in f.defaults:
+                        local[n] = f.defaults[n]        # evaluated at definition time (python semantics: shared between the calls)
+                    elif n in defaults:
                         try:
                             local[n] = self.ev(defaults[n], denv)
                         except (Undecidable, Crash):
@@ -412,8 +489,13 @@ class Interp:
             is_gen = any(isinstance(n, (ast.Yield, ast.YieldFrom)) for n in au.walk(fn))
             if is_gen:
                 env.local["__yield__"] = []
+                env.local["__yield_level__"] = self.forbid
+                before_ = (self._mesh_state(), self.mutations)
             sig = self.block(fn.body, env)
             if is_gen:
+                if (self._mesh_state(), self.mutations) != before_:
+                    # generators are evaluated eagerly: one that updates a mesh / a list while it is consumed cannot be ordered faithfully
+                    raise Undecidable("a generator has side effects while it is being consumed (evaluated eagerly here)", node)
                 return list(env.local["__yield__"])
             if isinstance(sig, tuple) and sig[0] == "return":
                 return sig[1]
@@ -452,6 +534,13 @@ class Interp:
         if isinstance(f, Builtin):
             return self.call_builtin(f, pos, kw, node, env)
         if isinstance(f, _RecordMethod):
+            if isinstance(f.rec, SelfObj):
+                if self._has_tracked(pos, kw):
+                    return self._invoke(Func(f.fn, f.rec.modname), pos, kw, node, self_obj=f.rec)
+                try:        # a method that is not handed the mesh: its value matters only if it can be computed
+                    return self._invoke(Func(f.fn, f.rec.modname), pos, kw, node, self_obj=f.rec)
+                except Undecidable:
+                    return Opaque("call")
             return self._invoke(Func(f.fn, f.rec.cls.modname), pos, kw, node, self_obj=f.rec)
         if is_opaque(f):
             if isinstance(f, _OpaqueAttr) and f.attr in IGNORED_CALLS:
@@ -492,6 +581,26 @@ class Interp:
             return Opaque("mesh")
         if t in IGNORED_CALLS:
             return None
+        if f.name.startswith("operator.") and t in ("add", "sub", "mul", "truediv", "floordiv", "mod", "neg") and n in (1, 2):
+            if t == "neg" and n == 1:
+                return self.binop(ast.Sub(), 0, pos[0], node)
+            ops_ = {"add": ast.Add(), "sub": ast.Sub(), "mul": ast.Mult(), "truediv": ast.Div(), "floordiv": ast.FloorDiv(), "mod": ast.Mod()}
+            if n == 2 and t in ops_:
+                return self.binop(ops_[t], pos[0], pos[1], node)
+        if t == "reduce" and f.name.startswith("functools") and 2 <= n <= 3:
+            seq = self.iterate(pos[1], node)
+            if seq is None:
+                return Opaque(t)
+            seq = list(seq)
+            if n == 3:
+                acc = pos[2]
+            elif seq:
+                acc = seq.pop(0)
+            else:
+                raise Crash("TypeError", "reduce() of empty iterable with no initial value", node)
+            for x in seq:
+                acc = self.call_value(pos[0], [acc, x], {}, node, env)
+            return acc
         if t == "range":
             if all(isinstance(x, int) and not isinstance(x, bool) for x in pos) and 1 <= n <= 3:
                 if n == 3 and pos[2] == 0:
@@ -522,6 +631,38 @@ class Interp:
             if kw.get("strict") is True and len({len(i) for i in its}) > 1:
                 raise Crash("ValueError", "zip() arguments of different lengths", node)
             return [tuple(x) for x in zip(*its)]
+        if t == "dict" and f.name in ("dict", "builtins.dict"):
+            if n == 0:
+                return {k: v for k, v in kw.items()}
+            if n == 1 and isinstance(pos[0], dict):
+                out = dict(pos[0])
+                out.update(kw)
+                return out
+            pairs = self.iterate(pos[0], node) if n == 1 else None
+            if pairs is not None and all(isinstance(p_, (tuple, list)) and len(p_) == 2 and _hashable(p_[0]) and not is_opaque(p_[0]) for p_ in pairs):
+                out = {p_[0]: p_[1] for p_ in pairs}
+                out.update(kw)
+                return out
+            return Opaque("dict")
+        if t in ("set", "frozenset") and f.name in ("set", "frozenset", "builtins.set", "builtins.frozenset"):
+            # a python set of decided hashable values (its iteration order is not modelled: see `iterate`)
+            if n == 0:
+                return set()
+            src_ = sorted(pos[0], key=repr) if isinstance(pos[0], set) else self.iterate(pos[0], node)
+            if src_ is None or any(is_opaque(x) or not _hashable(x) for x in src_):
+                return Opaque(t)
+            return set(src_)
+        if t in ("sorted", "len", "min", "max", "sum", "list", "tuple") and n >= 1 and isinstance(pos[0], set) and len(pos[0]) > 1:
+            elems = list(pos[0])
+            plain_ = lambda x: _num(x) or isinstance(x, str) or (isinstance(x, tuple) and all(plain_(y) for y in x))
+            if t == "len":
+                return len(elems)
+            if t in ("list", "tuple") or not all(plain_(x) for x in elems):
+                raise Undecidable("the iteration order of a set is not modelled", node)
+            try:
+                pos = [sorted(elems)] + list(pos[1:])
+            except TypeError:
+                raise Undecidable("the iteration order of a set is not modelled", node)
         if t in ("list", "tuple", "sorted", "reversed", "set", "frozenset", "iter"):
             if n == 0:
                 return [] if t in ("list", "sorted") else ()
@@ -539,9 +680,16 @@ class Interp:
                     return sorted(set(it)) if all(_num(x) for x in it) else Opaque("set")
                 except TypeError:
                     return Opaque("set")
+            plain = lambda x: _num(x) or isinstance(x, str) or (isinstance(x, tuple) and all(plain(y) for y in x))
             try:
+                if "key" in kw and kw["key"] is not None:
+                    keys = [self.call_value(kw["key"], [x], {}, node, env) for x in it]
+                    if all(plain(k_) for k_ in keys):
+                        order_ = sorted(range(len(it)), key=lambda i_: keys[i_], reverse=bool(kw.get("reverse", False)))
+                        return [it[i_] for i_ in order_]
+                    return Opaque("sorted")
                 if all(_num(x) for x in it) or all(isinstance(x, tuple) and all(_num(y) for y in x) for x in it):
-                    return sorted(it, reverse=bool(kw.get("reverse", False))) if "key" not in kw else Opaque("sorted")
+                    return sorted(it, reverse=bool(kw.get("reverse", False)))
             except TypeError:
                 pass
             return Opaque("sorted")
@@ -576,8 +724,10 @@ class Interp:
             return int(round(pos[0]))
         if t == "sum" and n >= 1:
             it = self.iterate(pos[0], node)
+            if set(kw) - {"start"} or (n > 1 and not _num(pos[1])) or ("start" in kw and not _num(kw["start"])):
+                return Opaque("sum")
             if it is not None and all(_num(x) for x in it):
-                tot = pos[1] if n > 1 and _num(pos[1]) else 0
+                tot = pos[1] if n > 1 else kw.get("start", 0)
                 for x in it:
                     tot = tot + x
                 return tot
@@ -606,6 +756,11 @@ class Interp:
                 return Opaque("map")
             return [self.call_value(pos[0], [x], {}, node, env) for x in it]
         # ---- numpy constructors of known length
+        if t in NUMPY_KW and not f.name.startswith("itertools"):
+            # a keyword the model of the function does not know (order=, out=, mode=, ndmin=, sparse= ...) changes what it computes
+            extra = set(kw) - NUMPY_KW[t]
+            if extra or (kw.get("order") not in (None, "C", "K", "A")) or kw.get("sparse") or kw.get("retstep") or kw.get("out") is not None:
+                return Opaque(t)
         if t == "linspace" and n >= 2:
             num = pos[2] if n >= 3 else kw.get("num", 50)
             if isinstance(num, int) and not isinstance(num, bool):
@@ -630,19 +785,29 @@ class Interp:
             if n == 3 and pos[2] == 0:
                 raise Crash("ZeroDivisionError", "arange step is zero", node)
             return NArr(list(range(*pos)), label="arange")
-        if t in ("zeros", "ones", "empty", "full", "zeros_like", "ones_like", "empty_like") and n >= 1:
-            shp = pos[0].shape if (t.endswith("_like") and isinstance(pos[0], NArr)) else pos[0]
+        if t in ("zeros", "ones", "empty", "full", "zeros_like", "ones_like", "empty_like", "full_like") and n >= 1:
+            like = t.endswith("_like")
+            if like and not isinstance(pos[0], NArr):
+                a_like = self._as_arr(pos[0])
+                if a_like is None:
+                    return Opaque(t)
+                pos = [a_like] + list(pos[1:])
+            shp = pos[0].shape if like else pos[0]
             if isinstance(shp, int) and not isinstance(shp, bool):
                 shp = (shp,)
             if isinstance(shp, (tuple, list)) and all(isinstance(d, int) and not isinstance(d, bool) and d >= 0 for d in shp):
                 dt = kw.get("dtype")
                 is_int = isinstance(dt, Builtin) and dt.tail in ("int", "int64", "int32", "intp", "uint32", "uint64")
+                if like and dt is None and pos[0].items and all(isinstance(x, int) and not isinstance(x, bool) for x in pos[0].items):
+                    is_int = True       # the dtype of the model array is kept
                 if t.startswith("zeros"):
                     fill = 0 if is_int else Fraction(0)
                 elif t.startswith("ones"):
                     fill = 1 if is_int else Fraction(1)
-                elif t == "full" and n > 1:
+                elif t in ("full", "full_like") and n > 1:
                     fill = pos[1]
+                elif t in ("full", "full_like") and "fill_value" in kw:
+                    fill = kw["fill_value"]
                 else:
                     fill = None
                 size = 1
@@ -667,7 +832,8 @@ class Interp:
         if t in ("product", "chain", "pairwise", "repeat", "accumulate", "islice", "zip_longest", "starmap") and f.name.startswith("itertools"):
             return self._itertools(t, pos, kw, node, env)
         if t in ("repeat", "tile", "outer", "meshgrid", "roll", "cumsum", "reshape", "ravel", "mod", "remainder", "add", "subtract", "multiply",
-                 "floor_divide", "flip", "append", "divmod", "indices") and not f.name.startswith("itertools"):
+                 "floor_divide", "flip", "append", "divmod", "indices", "take", "swapaxes", "moveaxis", "squeeze", "expand_dims", "atleast_2d",
+                 "minimum", "maximum", "clip", "negative") and not f.name.startswith("itertools"):
             r = self._numpy_fn(t, pos, kw, node)
             if r is not NotImplemented:
                 return r
@@ -707,7 +873,11 @@ class Interp:
         """stacking of arrays of known shape (vectorised construction of faces / edges)"""
         if t == "transpose":
             v = self._as_arr(pos[0])
-            return ND.transpose(v) if v is not None and len(pos) == 1 else Opaque(t)
+            axes = pos[1] if len(pos) == 2 else kw.get("axes")
+            if v is not None and axes is not None and isinstance(axes, (tuple, list)) and all(isinstance(a, int) and not isinstance(a, bool) for a in axes):
+                r = ND.permute(v, list(axes))
+                return r if r is not None else Opaque(t)
+            return ND.transpose(v) if v is not None and len(pos) == 1 and not kw else Opaque(t)
         seqs = self.iterate(pos[0], node)
         if seqs is None:
             return Opaque(t)
@@ -781,6 +951,34 @@ class Interp:
                     items = [a.items[idx[axis]] for idx in itertools.product(*[range(d) for d in shape])]
                     outs.append(NArr(items, shape, label="meshgrid"))
                 return outs
+        if t == "take" and n >= 2 and a0 is not None:
+            # np.take(a, idx, axis=k)  ==  a[:, ..., idx]  (flattened array when no axis is given)
+            axis = kw.get("axis", pos[2] if n > 2 else None)
+            idx = pos[1]
+            if isinstance(idx, (list, tuple, range)):
+                idx = self._as_arr(idx)
+            mode = kw.get("mode", "raise")
+            if mode != "raise":
+                # out-of-range indices wrap around / are clipped instead of raising
+                size = a0.size if axis is None else (a0.shape[axis % a0.ndim] if isinstance(axis, int) and not isinstance(axis, bool) and -a0.ndim <= axis < a0.ndim else None)
+                fix = (lambda v: v % size) if mode == "wrap" else ((lambda v: min(max(v, 0), size - 1)) if mode == "clip" else None)
+                if fix is None or not size:
+                    return Opaque(t)
+                if isinstance(idx, NArr) and all(isinstance(x, int) and not isinstance(x, bool) for x in idx.items):
+                    idx = NArr([fix(x) for x in idx.items], idx.shape, label=idx.label)
+                elif isinstance(idx, int) and not isinstance(idx, bool):
+                    idx = fix(idx)
+                else:
+                    return Opaque(t)
+            if axis is None:
+                src, key = self._reshape(a0, (-1,), node), idx
+            elif isinstance(axis, int) and not isinstance(axis, bool) and -a0.ndim <= axis < a0.ndim:
+                src, key = a0, (slice(None),) * (axis % a0.ndim) + (idx,)
+            else:
+                return Opaque(t)
+            if isinstance(src, NArr):
+                return self.subscript(src, key, node)
+            return Opaque(t)
         if t == "roll" and n >= 2 and a0 is not None and isinstance(pos[1], int) and not isinstance(pos[1], bool):
             axis = kw.get("axis", pos[2] if n > 2 else None)
             if axis is None or (isinstance(axis, int) and not isinstance(axis, bool)):
@@ -789,9 +987,41 @@ class Interp:
                     return r
         if t == "indices" and n >= 1 and isinstance(pos[0], (tuple, list)) and all(isinstance(d, int) and not isinstance(d, bool) and d >= 0 for d in pos[0]):
             return ND.indices(pos[0])
-        if t == "flip" and a0 is not None and a0.ndim == 1:
+        if t == "flip" and a0 is not None and a0.ndim == 1 and kw.get("axis", 0) in (0, -1, None):
             a0.mark_all()
             return NArr(a0.items[::-1], label="flip")
+        if t == "flip" and a0 is not None and isinstance(kw.get("axis", pos[1] if n > 1 else None), int) and not isinstance(kw.get("axis", pos[1] if n > 1 else None), bool):
+            r = ND.flip(a0, kw.get("axis", pos[1] if n > 1 else None))
+            return r if r is not None else Opaque(t)
+        if t in ("swapaxes", "moveaxis") and n == 3 and a0 is not None and all(isinstance(x, int) and not isinstance(x, bool) for x in pos[1:]):
+            i_, j_ = pos[1] % a0.ndim if a0.ndim else 0, pos[2] % a0.ndim if a0.ndim else 0
+            axes = list(range(a0.ndim))
+            if t == "swapaxes":
+                axes[i_], axes[j_] = axes[j_], axes[i_]
+            else:
+                axes.insert(j_, axes.pop(i_))
+            r = ND.permute(a0, axes)
+            return r if r is not None else Opaque(t)
+        if t == "squeeze" and n == 1 and a0 is not None and not kw:
+            return self._reshape(a0, tuple(d for d in a0.shape if d != 1), node)
+        if t == "expand_dims" and n == 2 and a0 is not None and isinstance(pos[1], int) and not isinstance(pos[1], bool):
+            ax = pos[1] if pos[1] >= 0 else pos[1] + a0.ndim + 1
+            if 0 <= ax <= a0.ndim:
+                return self._reshape(a0, a0.shape[:ax] + (1,) + a0.shape[ax:], node)
+        if t == "atleast_2d" and n == 1 and a0 is not None:
+            return a0 if a0.ndim >= 2 else self._reshape(a0, (1, a0.size), node)
+        if t == "negative" and n == 1:
+            return self.binop(ast.Sub(), 0, pos[0], node)
+        if t in ("minimum", "maximum") and n == 2 and (a0 is not None or self._as_arr(pos[1]) is not None):
+            f_ = min if t == "minimum" else max
+            x0 = a0 if a0 is not None else pos[0]
+            b0 = self._as_arr(pos[1]) if isinstance(pos[1], (NArr, list, tuple, range)) else pos[1]
+            if (isinstance(x0, NArr) or _num(x0)) and (isinstance(b0, NArr) or _num(b0)):
+                r = ND.elementwise(x0, b0, lambda x, y: f_(x, y) if _num(x) and _num(y) else Opaque(t, deps_of(x) | deps_of(y)))
+                return r if r is not None else Opaque(t)
+            return Opaque(t)
+        if t == "clip" and n == 3 and a0 is not None and _num(pos[1]) and _num(pos[2]):
+            return NArr([min(max(x, pos[1]), pos[2]) if _num(x) else Opaque(t, deps_of(x)) for x in a0.items], a0.shape, label=t)
         if t == "cumsum" and a0 is not None and a0.ndim == 1 and all(_num(x) for x in a0.items):
             return NArr(list(itertools.accumulate(a0.items)), label="cumsum")
         if t == "append" and n == 2 and a0 is not None and "axis" not in kw:
@@ -826,6 +1056,23 @@ class Interp:
             if its and its[0] is not None and all(x is None or isinstance(x, int) for x in pos[1:]):
                 return its[0][slice(*pos[1:])]
             return Opaque(t)
+        if t == "accumulate" and its and its[0] is not None and (len(pos) >= 2 or "func" in kw or "initial" in kw):
+            # accumulate(seq, f, initial=x): the running values x, f(x, s0), f(f(x, s0), s1) ...
+            fn_ = pos[1] if len(pos) >= 2 else kw.get("func")
+            seq = list(its[0])
+            out = []
+            if kw.get("initial") is not None:
+                acc = kw["initial"]
+                out.append(acc)
+            elif seq:
+                acc = seq.pop(0)
+                out.append(acc)
+            else:
+                return []
+            for x in seq:
+                acc = self.call_value(fn_, [acc, x], {}, node, env) if fn_ is not None else self.binop(ast.Add(), acc, x, node)
+                out.append(acc)
+            return out
         if any(i is None for i in its):
             return Opaque(t)
         if t == "product":
@@ -904,6 +1151,24 @@ class Interp:
                     return getattr(obj, name)(*pos)
                 except (ValueError, TypeError) as e:
                     raise Crash(type(e).__name__, str(e), node)
+            raise Undecidable(f"list method `{name}`", node)       # it may change the list
+        if isinstance(obj, set):
+            if name in ("add", "discard", "remove", "update", "clear", "pop"):
+                self.mutate(node)
+                if name in ("add", "discard", "remove") and n == 1 and _hashable(pos[0]) and not is_opaque(pos[0]):
+                    if name == "remove" and pos[0] not in obj:
+                        raise Crash("KeyError", repr(pos[0]), node)
+                    (obj.add if name == "add" else obj.discard)(pos[0])
+                    return None
+                if name == "update" and n == 1:
+                    it = sorted(pos[0], key=repr) if isinstance(pos[0], set) else self.iterate(pos[0], node)
+                    if it is not None and all(_hashable(x) and not is_opaque(x) for x in it):
+                        obj.update(it)
+                        return None
+                if name == "clear" and n == 0:
+                    obj.clear()
+                    return None
+            raise Undecidable(f"set method `{name}`", node)
         if isinstance(obj, tuple) and name in ("index", "count"):
             try:
                 return getattr(obj, name)(*pos)
@@ -917,10 +1182,14 @@ class Interp:
                     return Opaque("str")
             return Opaque("str")
         if isinstance(obj, NArr):
+            ok_kw = {"astype": {"dtype", "copy", "casting", "subok"}, "repeat": {"axis"}, "copy": {"order"}, "view": {"dtype", "type"}}.get(name, set())
+            if set(kw) - ok_kw or kw.get("order") not in (None, "C", "K", "A"):
+                return Opaque(name)         # a keyword the model does not know (order='F', out=, axis= ...)
             if name in ("copy", "astype", "view"):
                 return obj.copy()
             if name in ("ravel", "flatten"):
-                return self._reshape(obj, (-1,), node)
+                r_ = self._reshape(obj, (-1,), node)
+                return r_.copy() if name == "flatten" and isinstance(r_, NArr) else r_
             if name == "tolist":
                 return obj.nested()
             if name == "reshape":
@@ -928,11 +1197,20 @@ class Interp:
                 return self._reshape(obj, shp, node)
             if name == "transpose" and n == 0:
                 return ND.transpose(obj)
+            if name == "transpose" and n >= 1:
+                axes = list(pos[0]) if n == 1 and isinstance(pos[0], (tuple, list)) else list(pos)
+                if all(isinstance(a, int) and not isinstance(a, bool) for a in axes):
+                    r = ND.permute(obj, axes)
+                    return r if r is not None else Opaque(name)
+            if name == "swapaxes" and n == 2:
+                return self.call_builtin(Builtin("numpy.swapaxes"), [obj] + list(pos), {}, node, env)
             if name == "squeeze" and n == 0:
                 return self._reshape(obj, tuple(d for d in obj.shape if d != 1), node)
             if name == "repeat":
                 return self.call_builtin(Builtin("numpy.repeat"), [obj] + list(pos), kw, node, env)
             if name == "fill" and n == 1:
+                if obj.aliased():
+                    raise Undecidable("fill of an array whose memory is shared with a live view", node)
                 self.mutate(node)
                 obj.items = [pos[0]] * len(obj.items)
                 return None
@@ -944,6 +1222,25 @@ class Interp:
                 return obj.get(pos[0], pos[1] if n > 1 else None) if _hashable(pos[0]) else Opaque("get")
             if name in ("keys", "values", "items"):
                 return list(getattr(obj, name)())
+            if name == "copy" and n == 0:
+                return dict(obj)
+            if name in ("setdefault", "pop", "update", "clear", "popitem"):
+                self.mutate(node)
+                if name == "setdefault" and 1 <= n <= 2 and _hashable(pos[0]) and not is_opaque(pos[0]):
+                    return obj.setdefault(pos[0], pos[1] if n > 1 else None)
+                if name == "pop" and 1 <= n <= 2 and _hashable(pos[0]) and not is_opaque(pos[0]):
+                    if pos[0] in obj:
+                        return obj.pop(pos[0])
+                    if n == 2:
+                        return pos[1]
+                    raise Crash("KeyError", repr(pos[0]), node)
+                if name == "update" and n == 1 and isinstance(pos[0], dict) and not kw:
+                    obj.update(pos[0])
+                    return None
+                if name == "clear" and n == 0:
+                    obj.clear()
+                    return None
+            raise Undecidable(f"dict method `{name}`", node)
         if isinstance(obj, Mod):
             return self.call_value(self.module_attr(obj, name), pos, kw, node, env)
         if isinstance(obj, Builtin) and obj.name == "itertools.chain" and name == "from_iterable" and n == 1:
@@ -1006,6 +1303,10 @@ class Interp:
             return list(v.comps)
         if isinstance(v, Record) and v.cls.is_tuple:
             return [v.values[k] for k in v.cls.fields]
+        if isinstance(v, EnumClass):
+            return list(v.members.values())        # members in definition order
+        if isinstance(v, (set, frozenset)):
+            return list(v) if len(v) <= 1 else None      # iteration order of a set: not modelled
         return None
 
     # ------------------------------------------------------------------ truth
@@ -1016,7 +1317,7 @@ class Interp:
             return False
         if _num(v):
             return v != 0
-        if isinstance(v, (list, tuple, range, str, dict)):
+        if isinstance(v, (list, tuple, range, str, dict, set, frozenset)):
             return len(v) > 0
         if isinstance(v, (Mesh, Func, Builtin, Attr, Mod, Bound)):
             return True
@@ -1035,6 +1336,9 @@ class Interp:
     def stmt(self, st, env):
         self.tick(st)
         if isinstance(st, ast.Expr):
+            if isinstance(st.value, (ast.Yield, ast.YieldFrom)) and self.forbid > self.lookup("__yield_level__", env):
+                # a value produced under a test / in a loop the analysis cannot evaluate: the length of the sequence is unknown
+                raise Undecidable("a generator yields under a test or in a loop the analysis cannot evaluate", st)
             if isinstance(st.value, (ast.Yield,)):
                 v = self.ev(st.value.value, env) if st.value.value is not None else None
                 self.lookup("__yield__", env).append(v)
@@ -1080,7 +1384,7 @@ class Interp:
                 raise Raised(st)
             return None
         if isinstance(st, (ast.FunctionDef, ast.AsyncFunctionDef)):
-            env.local[st.name] = Func(st, env.modname, env)
+            env.local[st.name] = self._define(st, env)
             return None
         if isinstance(st, ast.Nonlocal):
             env.nonlocals = set(env.nonlocals) | set(st.names)
@@ -1113,9 +1417,34 @@ class Interp:
                     raise Undecidable("del of a sub-object", st)
             return None
         if isinstance(st, ast.Try):
-            # the protected body is evaluated; a decided failure inside it is not followed into the handlers
-            sig = self.block(st.body, env)
-            if sig is None and st.orelse:
+            # the protected body is evaluated; a decided failure inside it goes to the handler that catches it
+            try:
+                sig = self.block(st.body, env)
+                failed = False
+            except (Crash, Raised) as exc:
+                kind = exc.args[0].split(":")[0] if isinstance(exc, Crash) and exc.args else None
+                if isinstance(exc, Crash):
+                    kind = getattr(exc, "kind", None) or kind
+                else:
+                    r_ = exc.node.exc if isinstance(getattr(exc, "node", None), ast.Raise) else None
+                    r_ = r_.func if isinstance(r_, ast.Call) else r_
+                    kind = (au.chain(r_) or [None])[-1] if r_ is not None else None
+                handler = None
+                for h in st.handlers:
+                    names_ = [] if h.type is None else [(au.chain(x) or ["?"])[-1] for x in (h.type.elts if isinstance(h.type, ast.Tuple) else [h.type])]
+                    if h.type is None or "Exception" in names_ or "BaseException" in names_ or (kind is not None and kind in names_) \
+                            or (kind in ("IndexError", "KeyError") and "LookupError" in names_) or (kind == "ZeroDivisionError" and "ArithmeticError" in names_):
+                        handler = h
+                        break
+                    if kind is None or "?" in names_:
+                        raise Undecidable("an exception whose class the analysis cannot name meets an `except` clause", st)
+                if handler is None:
+                    raise
+                if handler.name:
+                    env.bind(handler.name, Opaque("exception"))
+                sig = self.block(handler.body, env)
+                failed = True
+            if sig is None and st.orelse and not failed:
                 sig = self.block(st.orelse, env)
             if st.finalbody:
                 s2 = self.block(st.finalbody, env)
@@ -1211,6 +1540,8 @@ class Interp:
         if isinstance(v, VecV):
             v = NArr(list(v.comps))
         r = base.set(key, v)
+        if r == "aliased":
+            raise Undecidable("a store into an array whose memory is shared with a live view (numpy views are not modelled)", st)
         if isinstance(r, str):
             raise Crash("IndexError" if "out of bounds" in r else "ValueError", r, st)
         if r is False:
@@ -1231,8 +1562,16 @@ class Interp:
                 self.mutate(st)
                 cur.extend(it)
                 return None
+            if isinstance(cur, list) and isinstance(st.op, ast.Mult):
+                if not (isinstance(rhs, int) and not isinstance(rhs, bool)):
+                    raise Undecidable("list repeated an unknown number of times", st)
+                self.mutate(st)
+                cur[:] = cur * rhs        # in place: every alias of the list sees it
+                return None
             if isinstance(cur, NArr):
                 # numpy updates the array in place: every alias sees the new entries
+                if cur.aliased():
+                    raise Undecidable("an in-place update of an array whose memory is shared with a live view (numpy views are not modelled)", st)
                 res = self.binop(st.op, cur, rhs, st)
                 self.mutate(st)
                 if isinstance(res, NArr) and res.shape == cur.shape:
@@ -1277,7 +1616,9 @@ class Interp:
             if isinstance(base, NArr):
                 self.mutate(st)
                 cur = self.subscript(base, key, st)
-                self._arr_store(base, key, self.binop(st.op, cur, rhs, st), st)
+                new_ = self.binop(st.op, cur, rhs, st)
+                del cur         # the temporary view of the updated entries is gone before the store
+                self._arr_store(base, key, new_, st)
                 return None
             if isinstance(base, dict):
                 raise Undecidable("dict update", st)
@@ -1484,7 +1825,7 @@ class Interp:
         return Opaque("str")
 
     def e_Lambda(self, e, env):
-        return Func(e, env.modname, env)
+        return self._define(e, env)
 
     def e_Starred(self, e, env):
         return self.ev(e.value, env)
@@ -1514,6 +1855,8 @@ class Interp:
                 return Lin({k: -c for k, c in v.t.items()})
             if isinstance(v, VecV) and v.numeric():
                 return VecV([-c for c in v.comps])
+            if isinstance(v, NArr):
+                return self.binop(ast.Sub(), 0, v, e)
             return Opaque("neg")
         if isinstance(e.op, ast.UAdd):
             return v
@@ -1565,9 +1908,11 @@ class Interp:
                 return r if isinstance(op, ast.Is) else not r
             if isinstance(a, bool) and isinstance(b, bool):
                 return (a is b) if isinstance(op, ast.Is) else (a is not b)
+            if isinstance(a, EnumMember) and isinstance(b, EnumMember):
+                return (a is b) if isinstance(op, ast.Is) else (a is not b)
             return None
         if isinstance(op, (ast.In, ast.NotIn)):
-            if isinstance(b, (list, tuple, range, dict, str)) and not is_opaque(a) and _hashable(a):
+            if isinstance(b, (list, tuple, range, dict, str, set, frozenset)) and not is_opaque(a) and _hashable(a):
                 try:
                     r = a in b
                 except TypeError:
@@ -1582,6 +1927,8 @@ class Interp:
                  ast.NotEq: operator.ne}.get(type(op))
             return None if f is None else f(a, b)
         if isinstance(op, (ast.Eq, ast.NotEq)):
+            if isinstance(a, EnumMember) and isinstance(b, EnumMember):
+                return (a is b) if isinstance(op, ast.Eq) else (a is not b)
             if isinstance(a, str) and isinstance(b, str):
                 return (a == b) if isinstance(op, ast.Eq) else (a != b)
             if (a is None or b is None) and not is_opaque(a) and not is_opaque(b):
@@ -1711,7 +2058,7 @@ class Interp:
             return Opaque(a)
         if isinstance(base, Attr):
             return Opaque(a)
-        if isinstance(base, (list, tuple, str, dict)):
+        if isinstance(base, (list, tuple, str, dict, set, frozenset)):
             return Bound(base, a)
         if isinstance(base, NArr):
             if a == "shape":
@@ -1737,10 +2084,26 @@ class Interp:
             if a in base.values:
                 return base.values[a]
             if a in base.cls.methods:
-                return _RecordMethod(base, base.cls.methods[a])
+                m_ = base.cls.methods[a]
+                if any(isinstance(d, ast.Name) and d.id in ("property", "cached_property") for d in m_.decorator_list):
+                    return self._invoke(Func(m_, base.cls.modname), [], {}, e, self_obj=base)
+                return _RecordMethod(base, m_)
+            return Opaque(a)
+        if isinstance(base, EnumClass):
+            if a in base.members:
+                return base.members[a]
+            return Opaque(a)
+        if isinstance(base, EnumMember):
+            if a == "name":
+                return base.name
+            if a == "value" and base.name in base.cls.values and not (isinstance(base.cls.values[base.name], ast.Call)
+                                                                      and au.call_tail(base.cls.values[base.name]) == "auto"):
+                return self.ev(base.cls.values[base.name], Env({}, None, base.cls.modname))
             return Opaque(a)
         if isinstance(base, Func):
             return Opaque(a)
+        if isinstance(base, SelfObj) and a in base.methods:
+            return _RecordMethod(base, base.methods[a])
         return _OpaqueAttr(base, a)
 
     def e_Subscript(self, e, env):
@@ -1902,6 +2265,29 @@ class Interp:
 class _RecordMethod:
     def __init__(self, rec, fn):
         self.rec, self.fn = rec, fn
+
+
+class SelfObj(Opaque):
+    """the instance a method under evaluation belongs to: its data is opaque, its plain methods are those of the class `methods`
+    (name -> FunctionDef), evaluated like any other helper"""
+    __slots__ = ("methods", "modname")
+
+    def __init__(self, methods, modname):
+        Opaque.__init__(self, "self")
+        self.methods, self.modname = dict(methods), modname
+
+
+def self_object(repo, modname, clsname):
+    """SelfObj for the class `clsname` of module `modname` (properties stay opaque attributes)"""
+    m = repo.module(modname)
+    methods = {}
+    for q, f in m.funcs.items():
+        if q.startswith(clsname + ".") and "." not in q[len(clsname) + 1:]:
+            decos = [d.id if isinstance(d, ast.Name) else getattr(d, "attr", "") for d in f.decorator_list]
+            if any(d in ("property", "setter", "cached_property") for d in decos):
+                continue
+            methods[q[len(clsname) + 1:]] = f
+    return SelfObj(methods, m.name)
 
 
 class _OpaqueAttr(Opaque):
@@ -2132,7 +2518,7 @@ def assignments(ints, switches):
             yield p
 
 
-def explore(repo, modname, fn, ints, switches=(), fixed=None, self_obj=None, admit=None):
+def explore(repo, modname, fn, ints, switches=(), fixed=None, self_obj=None, admit=None, stubs=None):
     """Evaluate `fn` for every assignment of the integer parameters `ints` = {name: (lo, hi)} and boolean `switches`;
     `fixed` = {name: value | callable(params) -> value} gives the other arguments (default: the parameter's own default / opaque)."""
     out = []
@@ -2140,6 +2526,7 @@ def explore(repo, modname, fn, ints, switches=(), fixed=None, self_obj=None, adm
         if admit is not None and not admit(p):
             continue
         it = Interp(repo)
+        it.stubs = dict(stubs or {})
         formal = set(au.params(fn))
         args = {k: v for k, v in p.items() if k in formal}
         for k, v in (fixed or {}).items():
